@@ -255,7 +255,10 @@ class Action:
             elif "Start" in event.name:
                 self.context.update(event.arguments)
                 self.status = ActionStatus.STARTING
-                self.flow_scope_count = 1
+                # The Start event comes back as an input event once it was sent out: the
+                # flows that share the action meanwhile must keep their hold on it
+                if self.flow_scope_count == 0:
+                    self.flow_scope_count = 1
             elif "Stop" in event.name:
                 self.context.update(event.arguments)
                 self.status = ActionStatus.STOPPING
